@@ -942,7 +942,9 @@ Section Main.
 
   (* the empty trie: Prove emits nothing and the empty proof is REJECTED, although
      the key is absent (lk NEmpty k = None): completeness fails for t = NEmpty *)
-  Theorem completeness_empty_refuted resolve key :
+End Main.
+
+  Theorem completeness_empty_refuted (H : list N -> list N) resolve key :
     exists r, hash_root H NEmpty = Some r /\ prove H resolve NEmpty key = TOk [] /\
               verify_proof r key [] = VErr (VMissing 0) /\
               lk NEmpty (keybytes_to_hex key) = None.
@@ -956,7 +958,6 @@ Section Main.
         [lia|reflexivity].
     - apply lk_empty.
   Qed.
-End Main.
 
 (* ------------------------------------------------------------------ VerifyProof never panics *)
 
@@ -1064,7 +1065,7 @@ Proof.
   destruct (split_list buf) as [[elems rest0]|] eqn:Esl; [|discriminate].
   assert (He : bytesb elems = true).
   { unfold split_list in Esl. destruct (Raw.split buf) as [[[k c] r]|] eqn:E; [|discriminate].
-    destruct k; try discriminate. inversion Esl; subst. eapply split_bytes; eassumption. }
+    destruct k; try discriminate. inversion Esl; subst. exact (proj1 (split_bytes _ _ _ _ Hb E)). }
   destruct (count_values elems) as [c [e|]]; [discriminate|].
   (* decodeRef yields a good child and leaves bytes *)
   assert (Href : forall b c' r, bytesb b = true -> dref f b = DOk (c', r) -> pgood c' /\ bytesb r = true).
@@ -1077,7 +1078,7 @@ Proof.
       destruct (Nat.eqb (length v) 32); [intros X; inversion X; subst; split; [apply pgood_hash|exact Hr']|discriminate].
     - cbv zeta. destruct (Nat.leb 32 (length b - length r')); [discriminate|].
       destruct (decode_node_f f b) as [n'|] eqn:En; [|discriminate].
-      intros X; inversion X; subst. split; [eapply IH; eassumption|exact Hr']. }
+      intros X; inversion X; subst. split; [exact (IH _ _ Hbb En)|exact Hr']. }
   unfold dbody in Hd. destruct (c =? 2).
   - destruct (split_string elems) as [[kbuf rest]|] eqn:Ess; [|discriminate].
     destruct (split_string_bytes _ _ _ He Ess) as [Hkb Hrest]. cbv zeta in Hd.
@@ -1122,6 +1123,140 @@ Proof.
     try discriminate. apply IH, Hkr.
 Qed.
 
+(* ------------------------------------------------------------------ decodeNode's fuel is never exhausted *)
+
+Lemma split_len b k c r : bytesb b = true -> Raw.split b = Ok (k, c, r) ->
+  (length c + length r <= length b)%nat /\ (k = KList -> length c + length r < length b)%nat.
+Proof.
+  intros Hb Hs. destruct (split_sound b k c r Hb Hs) as [E _]. subst b.
+  rewrite app_length, chunk_len. split; [lia|]. intros ->.
+  pose proof (hdr_ge1 KList c ltac:(discriminate)). lia.
+Qed.
+
+Lemma split_string_len b c r : bytesb b = true -> split_string b = Ok (c, r) ->
+  (length r <= length b)%nat.
+Proof.
+  intros Hb. unfold split_string. destruct (Raw.split b) as [[[k c'] r']|] eqn:E; [|discriminate].
+  pose proof (split_len b k c' r' Hb E) as [L _].
+  destruct k; try discriminate; intros Hs; inversion Hs; subst; lia.
+Qed.
+
+(* a fuel failure of decodeRef comes from an embedded list shorter than 32 bytes *)
+Lemma dref_fuel g b : dref g b = DErr DFuel ->
+  exists v r, Raw.split b = Ok (KList, v, r) /\ (length b - length r < 32)%nat /\
+              decode_node_f g b = DErr DFuel.
+Proof.
+  unfold dref. destruct (Raw.split b) as [[[k v] r]|] eqn:E; [|discriminate].
+  destruct k.
+  - rewrite ref_len_cases. destruct (Nat.eqb (length v) 0); [discriminate|].
+    destruct (Nat.eqb (length v) 32); discriminate.
+  - rewrite ref_len_cases. destruct (Nat.eqb (length v) 0); [discriminate|].
+    destruct (Nat.eqb (length v) 32); discriminate.
+  - cbv zeta. destruct (Nat.leb_spec 32 (length b - length r)); [discriminate|].
+    destruct (decode_node_f g b) as [n|e] eqn:D; [discriminate|].
+    intros X; inversion X; subst. exists v, r. auto.
+Qed.
+
+Lemma dref_bytes_len g b c r : bytesb b = true -> dref g b = DOk (c, r) ->
+  bytesb r = true /\ (length r <= length b)%nat.
+Proof.
+  intros Hb. unfold dref. destruct (Raw.split b) as [[[k v] r']|] eqn:E; [|discriminate].
+  destruct (split_bytes b k v r' Hb E) as [_ Hr']. pose proof (split_len b k v r' Hb E) as [L _].
+  destruct k.
+  - rewrite ref_len_cases. destruct (Nat.eqb (length v) 0); [intros X; inversion X; subst; split; [auto|lia]|].
+    destruct (Nat.eqb (length v) 32); [intros X; inversion X; subst; split; [auto|lia]|discriminate].
+  - rewrite ref_len_cases. destruct (Nat.eqb (length v) 0); [intros X; inversion X; subst; split; [auto|lia]|].
+    destruct (Nat.eqb (length v) 32); [intros X; inversion X; subst; split; [auto|lia]|discriminate].
+  - cbv zeta. destruct (Nat.leb 32 (length b - length r')); [discriminate|].
+    destruct (decode_node_f g b); [|discriminate]. intros X; inversion X; subst. split; [auto|lia].
+Qed.
+
+Lemma dchildren_fuel g : forall i b, bytesb b = true -> dchildren g i b = DErr DFuel ->
+  exists b', bytesb b' = true /\ (length b' <= length b)%nat /\ dref g b' = DErr DFuel.
+Proof.
+  induction i as [|i IH]; intros b Hb Hd; [discriminate|].
+  rewrite dchildren_S in Hd. destruct (dref g b) as [[cld rest]|e] eqn:Er.
+  - destruct (dref_bytes_len g b cld rest Hb Er) as [Hr Lr].
+    destruct (dchildren g i rest) as [[l rest']|e] eqn:Ec; [discriminate|].
+    inversion Hd; subst. destruct (IH rest Hr Ec) as (b' & Hb' & L' & D'). exists b'. split; [auto|split; [lia|auto]].
+  - inversion Hd; subst. exists b. auto.
+Qed.
+
+(* where a fuel failure of one decodeNode level comes from *)
+Lemma decode_fuel_step g b : bytesb b = true -> decode_node_f (S g) b = DErr DFuel ->
+  exists elems rest b', split_list b = Ok (elems, rest) /\ bytesb b' = true /\
+    (length b' <= length elems)%nat /\ dref g b' = DErr DFuel.
+Proof.
+  intros Hb Hd. rewrite decode_node_f_S in Hd. destruct b as [|b0 bt]; [discriminate|].
+  set (b := b0 :: bt) in *.
+  destruct (split_list b) as [[elems rest0]|] eqn:Esl; [|discriminate].
+  assert (He : bytesb elems = true).
+  { unfold split_list in Esl. destruct (Raw.split b) as [[[k c] r]|] eqn:E; [|discriminate].
+    destruct k; try discriminate. inversion Esl; subst. exact (proj1 (split_bytes _ _ _ _ Hb E)). }
+  exists elems, rest0. destruct (count_values elems) as [c [e|]]; [discriminate|].
+  unfold dbody in Hd. destruct (c =? 2).
+  - destruct (split_string elems) as [[kbuf rest]|] eqn:Ess; [|discriminate].
+    destruct (split_string_bytes _ _ _ He Ess) as [_ Hrest].
+    pose proof (split_string_len _ _ _ He Ess) as Lrest. cbv zeta in Hd.
+    destruct (has_term (compact_to_hex kbuf)).
+    + destruct (split_string rest) as [[val r]|]; discriminate.
+    + destruct (dref g rest) as [[r x]|e] eqn:Er; [discriminate|]. inversion Hd; subst.
+      exists rest. auto.
+  - destruct (c =? 17); [|discriminate].
+    destruct (dchildren g 16 elems) as [[cs rest]|e] eqn:Ec.
+    + destruct (split_string rest) as [[val r]|]; discriminate.
+    + inversion Hd; subst. destruct (dchildren_fuel g 16 elems He Ec) as (b' & Hb' & L' & D').
+      exists b'. auto.
+Qed.
+
+Lemma decode_fuel_bound f : forall b, bytesb b = true -> decode_node_f (S f) b = DErr DFuel ->
+  exists elems rest, split_list b = Ok (elems, rest) /\ (f <= length elems)%nat.
+Proof.
+  induction f as [|f IH]; intros b Hb Hd;
+    destruct (decode_fuel_step _ b Hb Hd) as (elems & rest & b' & Esl & Hb' & L' & D');
+    exists elems, rest; (split; [exact Esl|]); [lia|].
+  destruct (dref_fuel _ b' D') as (v & r & Es & _ & Dn).
+  destruct (IH b' Hb' Dn) as (elems' & rest' & Esl' & Lf).
+  unfold split_list in Esl'. rewrite Es in Esl'. inversion Esl'; subst.
+  pose proof (split_len b' KList elems' rest' Hb' Es) as [_ L]. specialize (L eq_refl). lia.
+Qed.
+
+(* proof_decode_no_fuel: the nesting fuel of decodeNode is never exhausted on a byte string *)
+Theorem proof_decode_no_fuel buf : bytesb buf = true -> proof_decode buf <> DErr DFuel.
+Proof.
+  intros Hb Hd. unfold proof_decode, decode_node in Hd.
+  destruct (decode_fuel_step _ buf Hb Hd) as (elems & rest & b' & _ & Hb' & _ & D').
+  destruct (dref_fuel _ b' D') as (v & r & Es & Lsz & Dn).
+  destruct (decode_fuel_bound _ b' Hb' Dn) as (elems' & rest' & Esl' & Lf).
+  unfold split_list in Esl'. rewrite Es in Esl'. inversion Esl'; subst.
+  pose proof (split_len b' KList elems' rest' Hb' Es) as [L _]. lia.
+Qed.
+
+(* verify_total: on EVERY database of byte strings, every root and byte key, the
+   result is a value, "missing node i" or "bad node i" with a genuine decode
+   error class — never a panic, never the decoder's fuel; [VLoop] = the Go loop
+   does not terminate (needs a reference cycle in the database, see below) *)
+Theorem verify_total db root key :
+  (forall k b, In (k, b) db -> bytesb b = true) -> forallb byteb key = true ->
+  (exists v, verify_proof root key db = VOk v) \/
+  (exists i, verify_proof root key db = VErr (VMissing i)) \/
+  (exists i e, verify_proof root key db = VErr (VBad i e) /\ e <> DFuel) \/
+  verify_proof root key db = VErr VLoop.
+Proof.
+  intros Hdb Hkey. unfold verify_proof. pose proof (keybytes_to_hex_valid key Hkey) as Hk.
+  generalize (verify_fuel (keybytes_to_hex key) db) as f. generalize 0%nat as i. revert Hk.
+  generalize (keybytes_to_hex key) as k. generalize root as want.
+  intros want k Hk i f. revert want k Hk i.
+  induction f as [|f IH]; intros want k Hk i; [right; right; right; reflexivity|].
+  rewrite verify_f_S. destruct (db_get db want) as [buf|] eqn:G; [|right; left; eauto].
+  apply db_get_in in G. specialize (Hdb _ _ G).
+  destruct (proof_decode buf) as [n|e] eqn:D.
+  - destruct (decode_pgood _ _ _ Hdb D k Hk) as (kr & cld & -> & [->|[[v ->]|(h & -> & Hkr)]]);
+      [left; eauto|left; eauto|apply IH, Hkr].
+  - right; right; left. exists i, e. split; [reflexivity|]. intros ->.
+    exact (proof_decode_no_fuel buf Hdb D).
+Qed.
+
 (* the walk does not terminate on a database holding a reference cycle; without
    a hash check such a database is easy to write down (mis-keyed), with a hash-keyed
    one it needs a Keccak cycle *)
@@ -1129,3 +1264,184 @@ Example verify_loops_on_cycle :
   let root := repeat 17 32 in
   verify_proof root [1; 2] [(root, [226; 0; 160] ++ root)] = VErr VLoop.
 Proof. vm_compute. reflexivity. Qed.
+
+(* ------------------------------------------------------------------ boolean checkers (for concrete instances) *)
+
+Definition smallb (l : list N) : bool := lenN l <? 2 ^ 32.
+Definition val_okb (v : list N) : bool := match v with [] => false | _ => smallb v end.
+Fixpoint valid_keyb (k : list N) : bool :=
+  match k with
+  | [] => false
+  | x :: r => match r with [] => x =? 16 | _ => (x <? 16) && valid_keyb r end
+  end.
+Definition slot16b (c : node) : bool :=
+  match c with NEmpty => true | NValue v => val_okb v | _ => false end.
+
+Fixpoint pwfb (n : node) : bool :=
+  match n with
+  | NShort k c =>
+      match c with
+      | NValue v => valid_keyb k && smallb k && val_okb v
+      | _ => forallb nibbleb k && negb (Nat.eqb (length k) 0) && smallb k && pwfb c
+      end
+  | NFull cs =>
+      Nat.eqb (length cs) 17 &&
+      (fix go (l : list node) (i : nat) {struct l} : bool :=
+         match l with
+         | [] => true
+         | c :: r =>
+             (if Nat.eqb i 16 then slot16b c
+              else match c with NEmpty => true | _ => pwfb c end) && go r (S i)
+         end) cs O
+  | _ => false
+  end.
+
+Fixpoint slotsb (l : list node) (i : nat) : bool :=
+  match l with
+  | [] => true
+  | c :: r =>
+      (if Nat.eqb i 16 then slot16b c
+       else match c with NEmpty => true | _ => pwfb c end) && slotsb r (S i)
+  end.
+
+Lemma pwfb_full cs : pwfb (NFull cs) = Nat.eqb (length cs) 17 && slotsb cs 0.
+Proof.
+  reflexivity.
+Qed.
+
+Lemma smallb_small l : smallb l = true -> small l.
+Proof. unfold smallb, small. intros Hs. apply N.ltb_lt. exact Hs. Qed.
+
+Lemma val_okb_ok v : val_okb v = true -> val_ok v.
+Proof.
+  unfold val_okb, val_ok. destruct v; [discriminate|]. intros Hs. split; [discriminate|apply smallb_small, Hs].
+Qed.
+
+Lemma valid_keyb_valid k : valid_keyb k = true -> valid_key k.
+Proof.
+  induction k as [|x k IH]; [discriminate|]. intros Hv. apply valid_key_cons. cbn [valid_keyb] in Hv.
+  destruct k as [|y k].
+  - left. split; [apply N.eqb_eq, Hv|reflexivity].
+  - apply andb_true_iff in Hv as [Hx Hr]. right. split; [apply N.ltb_lt, Hx|apply IH, Hr].
+Qed.
+
+Lemma slotsb_spec l : forall i, slotsb l i = true ->
+  forall j c, nth_error l j = Some c ->
+    if Nat.eqb (i + j) 16 then slot16b c = true else (c = NEmpty \/ (c <> NEmpty /\ pwfb c = true)).
+Proof.
+  induction l as [|c0 l IH]; intros i Hs j c Hj; [destruct j; discriminate|].
+  cbn [slotsb] in Hs. apply andb_true_iff in Hs as [H0 Hr]. destruct j as [|j].
+  - inversion Hj; subst. rewrite Nat.add_0_r. destruct (Nat.eqb i 16); [exact H0|].
+    destruct c; [left; reflexivity|right; split; [discriminate|exact H0]..].
+  - replace (i + S j)%nat with (S i + j)%nat by lia. apply (IH (S i) Hr j c Hj).
+Qed.
+
+Lemma pwfb_sound n : pwfb n = true -> pwf n.
+Proof.
+  induction n as [| |k c IH|cs IH|] using node_ind'; intros Hb; try discriminate.
+  - cbn [pwfb] in Hb. destruct c as [|v|k' c'|cs'|h].
+    + repeat (apply andb_true_iff in Hb as [Hb ?]). discriminate.
+    + apply andb_true_iff in Hb as [Hb Hv]. apply andb_true_iff in Hb as [Hk Hs].
+      apply pwf_leaf; [apply valid_keyb_valid, Hk|apply smallb_small, Hs|apply val_okb_ok, Hv].
+    + apply andb_true_iff in Hb as [Hb Hc]. apply andb_true_iff in Hb as [Hb Hs].
+      apply andb_true_iff in Hb as [Hn Hne].
+      apply pwf_ext; [apply forallb_nibbles, Hn| |apply smallb_small, Hs|apply IH, Hc].
+      intros ->. discriminate.
+    + apply andb_true_iff in Hb as [Hb Hc]. apply andb_true_iff in Hb as [Hb Hs].
+      apply andb_true_iff in Hb as [Hn Hne].
+      apply pwf_ext; [apply forallb_nibbles, Hn| |apply smallb_small, Hs|apply IH, Hc].
+      intros ->. discriminate.
+    + repeat (apply andb_true_iff in Hb as [Hb ?]). discriminate.
+  - rewrite pwfb_full in Hb. apply andb_true_iff in Hb as [HL Hs]. apply Nat.eqb_eq in HL.
+    pose proof (slotsb_spec cs 0 Hs) as Sp. apply pwf_full; [exact HL| |].
+    + intros i c Hc Hi. specialize (Sp i c Hc). cbn [Nat.add] in Sp.
+      destruct (Nat.eqb_spec i 16); [lia|]. destruct Sp as [->|[_ Hp]]; [left; reflexivity|right].
+      rewrite Forall_forall in IH. apply IH; [eapply nth_error_In; exact Hc|exact Hp].
+    + intros c Hc. specialize (Sp 16%nat c Hc). cbn [Nat.add Nat.eqb] in Sp.
+      destruct c; try discriminate; [left; reflexivity|right]. eexists. split; [reflexivity|apply val_okb_ok, Sp].
+Qed.
+
+(* H is injective on a concrete list of encodings *)
+Definition inj_onb (H : list N -> list N) (l : list (list N)) : bool :=
+  forallb (fun a => forallb (fun b => implb (bytes_eqb (H a) (H b)) (bytes_eqb a b)) l) l.
+
+Lemma inj_onb_sound H l : inj_onb H l = true -> H_inj_on H (fun e => In e l).
+Proof.
+  intros Hc a b Ha Hb E. unfold inj_onb in Hc. rewrite forallb_forall in Hc.
+  specialize (Hc a Ha). rewrite forallb_forall in Hc. specialize (Hc b Hb).
+  rewrite E, bytes_eqb_refl in Hc. cbn [implb] in Hc. apply bytes_eqb_eq, Hc.
+Qed.
+
+(* the encodings of all nodes of a trie, as a list *)
+Fixpoint somes {A} (l : list (option A)) : list A :=
+  match l with [] => [] | Some a :: r => a :: somes r | None :: r => somes r end.
+Definition encs_of (H : list N -> list N) (t : node) : list (list N) :=
+  somes (map (node_enc H) (nodes_of t)).
+
+Lemma genuine_encs_of H t e : genuine H t e -> In e (encs_of H t).
+Proof.
+  intros (c & Hc & Ec). unfold encs_of. induction (nodes_of t) as [|x l IH]; [destruct Hc|].
+  cbn [map somes]. destruct Hc as [->|Hc].
+  - rewrite Ec. left. reflexivity.
+  - destruct (node_enc H x); [right|]; apply IH, Hc.
+Qed.
+
+(* ------------------------------------------------------------------ a concrete instance (non-vacuity) *)
+
+(* a 32-byte "hash" good enough to be collision free on the example's five
+   encodings (NOT in general): the first 32 bytes, zero padded *)
+Definition toy_hash (x : list N) : list N := firstn 32 (x ++ repeat 0 32).
+Lemma toy_hash_len x : length (toy_hash x) = 32%nat.
+Proof. unfold toy_hash. rewrite firstn_length, app_length, repeat_length. lia. Qed.
+
+(* extension [0;a] -> branch { 4: leaf [1] -> 40-byte value (hashed node),
+                                7: leaf [3] -> 2-byte value (embedded node),
+                                value slot: [5] } *)
+Definition ex_leaf_a : node := NShort [1; 16] (NValue (repeat 7 40)).
+Definition ex_leaf_b : node := NShort [3; 16] (NValue [9; 9]).
+Definition ex_branch : node :=
+  NFull [NEmpty; NEmpty; NEmpty; NEmpty; ex_leaf_a; NEmpty; NEmpty; ex_leaf_b;
+         NEmpty; NEmpty; NEmpty; NEmpty; NEmpty; NEmpty; NEmpty; NEmpty; NValue [5]].
+Definition ex_trie : node := NShort [0; 10] ex_branch.
+Definition ex_keys : list (list N) := [[10; 65]; [10; 115]; [10]; [10; 66]; [11]; []].
+
+(* everything the theorems promise, evaluated on the instance: hashed and
+   embedded nodes both occur; every key (present or absent) proves and verifies
+   to the lookup; deleting the last proof node gives an error *)
+Definition ex_check : bool :=
+  let encs := encs_of toy_hash ex_trie in
+  existsb (fun e => Nat.leb 32 (length e)) encs &&
+  existsb (fun e => Nat.ltb (length e) 32) encs &&
+  match hash_root toy_hash ex_trie with
+  | None => false
+  | Some r =>
+      forallb (fun key =>
+        match prove toy_hash (fun _ _ => None) ex_trie key with
+        | TOk db =>
+            match verify_proof r key db, lk ex_trie (keybytes_to_hex key) with
+            | VOk (Some a), Some b => bytes_eqb a b
+            | VOk None, None => true
+            | _, _ => false
+            end &&
+            match verify_proof r key (removelast db) with VErr (VMissing _) => true | _ => false end
+        | TErr _ => false
+        end) ex_keys
+  end &&
+  match lk ex_trie (keybytes_to_hex [10; 65]), lk ex_trie (keybytes_to_hex [10; 66]) with
+  | Some _, None => true
+  | _, _ => false
+  end.
+
+Lemma ex_hypotheses :
+  (forall x, length (toy_hash x) = 32%nat) /\
+  H_inj_on toy_hash (fun e => In e (encs_of toy_hash ex_trie)) /\
+  pwf ex_trie /\
+  (forall e, genuine toy_hash ex_trie e -> In e (encs_of toy_hash ex_trie)) /\
+  Forall (fun key => forallb byteb key = true) ex_keys /\
+  ex_check = true.
+Proof.
+  split; [exact toy_hash_len|]. split; [apply inj_onb_sound; vm_compute; reflexivity|].
+  split; [apply pwfb_sound; vm_compute; reflexivity|].
+  split; [exact (genuine_encs_of toy_hash ex_trie)|].
+  split; [repeat constructor|vm_compute; reflexivity].
+Qed.
